@@ -32,6 +32,7 @@ def check(tree, rep, tier='quick', seed=0):
     R.k7_missing_key_raises(core, rep)
     R.k22_solution_agreement(core, rep)  # the solution text is the stored value, written verbatim (what the user reads as the line's value)
     R.k14_solution_lists_all(core, rep)  # a partial solution is what was computed, all of it: nothing a reported line was computed from is left out
+    R.k22f_solution_written_unfiltered(core, rep)   # the file holds this run's solution, not a union with an earlier run's
     R.k16_determinism(core, rep, extra_modules=[rel for y in tree.years() for rel in tree.form_modules(y)])   # re-evaluating a definition gives the same value in every run (no set order, clock, hash)
     R.k8_input_store_writes(core, rep)
     R.k11_input_gate(core, rep)
